@@ -73,7 +73,8 @@ DECIDING = ["roundtrip:v15", "roundtrip:oaep:sha1", "roundtrip:oaep:sha256", "ro
             "sentinel_returned", "plaintext_returned", "oaep_rejected", "oaep_accepted",
             "wrapper_cases:v15", "wrapper_cases:oaep", "exhaustive14:wrapper", "exhaustive14:decrypt",
             "refused_too_long:v15", "refused_too_long:oaep", "refused_bad_length", "refused_out_of_range",
-            "first_byte_ff_patterns", "odd_size_keys", "keys_built", "tiny_done", "x14_done", "modulus_11_bytes_roundtrips"]
+            "first_byte_ff_patterns", "odd_size_keys", "keys_built", "tiny_done", "x14_done", "modulus_11_bytes_roundtrips",
+            "retained_results_checked"]
 
 
 def finalize(agg, tier):
@@ -320,6 +321,28 @@ def judge_v15(ctx, L, res, em, k, scls, sentinel, ecls, explen, path, wit):
     return False
 
 
+_RETAINED = {}      # id(cipher object) -> [cipher, [(returned object, copy of its bytes at return time, what)]]
+
+
+def retain(ctx, scheme, cipher, res, what):
+    """What an earlier decrypt() of this cipher object returned must not change when the object is used again
+    (a result that is a view of a scratch area inside the object would)."""
+    slot = _RETAINED.setdefault(id(cipher), [cipher, []])
+    kept = slot[1]
+    for obj, snap, w0 in kept:
+        ctx.count("retained_results_checked")
+        ctx.check(bytes(bytearray(obj)) == snap, "%s:earlier-result-changed-by-later-call" % scheme,
+                  "the bytes returned by an earlier decrypt() of the same cipher object changed when decrypt() was called again",
+                  lambda: {"earlier_call": w0, "returned_then": snap.hex()[:400], "reads_now": bytes(bytearray(obj)).hex()[:400],
+                           "later_call": what})
+    if res[0] == "ok" and isinstance(res[1], (bytes, bytearray)) and len(res[1]):
+        kept.append((res[1], bytes(bytearray(res[1])), what))
+        if len(kept) > 4:
+            kept.pop(0)
+    if len(_RETAINED) > 64:
+        _RETAINED.pop(next(iter(_RETAINED)))
+
+
 def v15_decrypt(ctx, L, cipher, kd, em, scls, sentinel, ecls, explen, desc, ctform=0):
     """Show EM to the real decrypt() and judge the outcome."""
     from vf.ctx import outcome
@@ -328,6 +351,7 @@ def v15_decrypt(ctx, L, cipher, kd, em, scls, sentinel, ecls, explen, desc, ctfo
         res = outcome(cipher.decrypt, ct, sentinel)
     else:
         res = outcome(cipher.decrypt, ct, sentinel, explen)
+    retain(ctx, "v15", cipher, res, {"pattern": repr(desc), "sentinel_class": scls, "expected_pt_len": explen})
     ctx.case(("v15", kd["bits"], kd["e"]) + tuple(desc) + (scls, ecls, "decrypt"))
     ctx.count("em_patterns:v15:decrypt")
     return judge_v15(ctx, L, res, em, kd["k"], scls, sentinel, ecls, explen, "decrypt",
@@ -530,6 +554,7 @@ def oaep_decrypt_em(ctx, L, cfg, cipher, kd, desc, em, valid_by_construction, ct
         return None
     ct = as_buf(ct_of(kd, em), ctform)
     res = outcome(cipher.decrypt, ct)
+    retain(ctx, "oaep", cipher, res, {"pattern": repr(desc)})
     ctx.case(("oaep", kd["bits"], kd["e"]) + cfg.desc() + tuple(desc) + ("decrypt",))
     ctx.count("em_patterns:oaep:decrypt")
     ctx.count("em_class:oaep:" + str(desc[0]))
